@@ -2404,3 +2404,175 @@ func ruleGlobArgs(w *World, r *Report, rule string, f, glob *ssa.Function, patte
 			funcName(f)+" expands "+funcName(glob)+"("+a0+", "+a1+") instead of (c.SrcBase, c."+patternField+"): the files/items worked on are not the ones matched on the source side")
 	}
 }
+
+// ruleGlobRel: the local glob functions hand back each match as filepath.Rel(baseDir, match) (items: mapped through
+// relDirToItem), so that the name joined onto the other base again denotes the same file whatever the spelling of
+// the base directory (trailing slash, ./, //): every store into the returned slice derives from such a Rel call.
+func ruleGlobRel(w *World, r *Report, rule string) {
+	for _, name := range []string{"globFilesLocal", "globItemsLocal"} {
+		key := "cmd." + name + ":relative-to-base"
+		f := fn(w.Cmd, name)
+		if f == nil || len(f.Params) != 2 {
+			r.Undecided(rule, key, "-", name+" not found")
+			continue
+		}
+		var rels []*ssa.Call
+		for _, c := range callsIn(f) {
+			if cv, ok := c.(*ssa.Call); ok && isCallToPkgFunc(c, "path/filepath", "Rel") && len(cv.Common().Args) == 2 {
+				a1 := newExprCtx(w).expr(cv.Common().Args[1])
+				if cv.Common().Args[0] == ssa.Value(f.Params[0]) && strings.HasPrefix(a1, "path/filepath.Glob(") {
+					rels = append(rels, cv)
+				}
+			}
+		}
+		bad := ""
+		if len(rels) == 0 {
+			bad = "no match is made relative with filepath.Rel(baseDir, match)"
+		}
+		nStores, nRel, inPlace := 0, 0, 0
+		eachInstr(f, func(in ssa.Instruction) {
+			st, ok := in.(*ssa.Store)
+			if !ok {
+				return
+			}
+			ia, ok := st.Addr.(*ssa.IndexAddr)
+			if !ok || !isStringType(st.Val.Type()) {
+				return
+			}
+			if _, isArr := ia.X.(*ssa.Alloc); isArr {
+				return // the argument array of a variadic call (filepath.Join)
+			}
+			nStores++
+			okSt := false
+			for _, l := range leavesOf(st.Val) {
+				if ex, ok := l.(*ssa.Extract); ok && ex.Index == 0 {
+					for _, rc := range rels {
+						if ex.Tuple == ssa.Value(rc) {
+							okSt = true
+						}
+					}
+				}
+				if c, ok := l.(*ssa.Call); ok {
+					// relDirToItem(rel) and similar pure mappings: look through one call
+					for _, a := range c.Common().Args {
+						for _, l2 := range leavesOf(a) {
+							if ex, ok := l2.(*ssa.Extract); ok && ex.Index == 0 {
+								for _, rc := range rels {
+									if ex.Tuple == ssa.Value(rc) {
+										okSt = true
+									}
+								}
+							}
+						}
+					}
+				}
+			}
+			if !okSt {
+				// an in-place mapping of names that are already relative: x[i] = f(x[i])
+				vs := newExprCtx(w).expr(st.Val)
+				as := newExprCtx(w).expr(ia)
+				if strings.Contains(vs, as) && vs != as {
+					inPlace++
+					return
+				}
+			} else {
+				nRel++
+			}
+			if !okSt && bad == "" {
+				bad = "a returned name is " + shortExpr(newExprCtx(w).expr(st.Val)) + ", not filepath.Rel(baseDir, match)"
+			}
+		})
+		if nStores == 0 && bad == "" {
+			bad = "the matches are returned as they are (absolute)"
+		}
+		if bad == "" && inPlace > 0 && nRel == 0 {
+			bad = "names are mapped in place but never made relative with filepath.Rel"
+		}
+		r.Check(bad == "", rule, key, w.pos(f.Pos()), "every returned name is filepath.Rel(baseDir, match)", name+": "+bad+" — with a base directory not spelled in clean form the names no longer denote the matched files on the other side")
+	}
+}
+
+func isStringType(t types.Type) bool {
+	b, ok := t.Underlying().(*types.Basic)
+	return ok && b.Info()&types.IsString != 0
+}
+
+// ruleWriteOrderFinestFirst: updateFileDataWithPointsList writes archive 0 first and goes up: a write to archive k
+// also recomputes the archives coarser than k from it, so what is written last to a coarser archive must be its own
+// list, not the aggregate of a finer one.
+func ruleWriteOrderFinestFirst(w *World, r *Report, rule string) {
+	const key = "cmd.updateFileDataWithPointsList:finest-first"
+	f := fn(w.Cmd, "updateFileDataWithPointsList")
+	upa := fn(w.Lib, "Whisper.UpdatePointsForArchive")
+	if f == nil || upa == nil {
+		r.Undecided(rule, key, "-", "updateFileDataWithPointsList not found")
+		return
+	}
+	cs := callsTo(f, upa)
+	if len(cs) != 1 {
+		r.Undecided(rule, key, w.pos(f.Pos()), fmt.Sprintf("%d calls of UpdatePointsForArchive", len(cs)))
+		return
+	}
+	id := stripConvert(cs[0].Common().Args[2])
+	var ctr *ssa.Phi
+	switch x := id.(type) {
+	case *ssa.Phi:
+		ctr = x
+	case *ssa.BinOp:
+		if k, ok := constInt(x.Y); ok && k == 1 && x.Op == token.ADD {
+			ctr, _ = x.X.(*ssa.Phi)
+		}
+	}
+	okOrder := ctr != nil && (loopFromTo(ctr, 0) || loopFromTo(ctr, -1))
+	// the list written is the one with the archive's own index
+	ex := newExprCtx(w)
+	okList := strings.HasSuffix(ex.expr(cs[0].Common().Args[1]), "p1["+ex.expr(id)+"]")
+	r.Check(okOrder && okList, rule, key, w.instrPos(cs[0]), "archives are written in ascending order, each with its own list", "updateFileDataWithPointsList does not write archive 0 first and upward with pointsList[archiveID]: a later write to a finer archive recomputes the coarser ones by the file's aggregation method and replaces what was written there (for any method other than sum the coarser slots no longer hold their own list)")
+}
+
+// ruleHeaderFirstRead: the first read of readHeader asks for no more bytes than the smallest valid file has
+// (16-byte meta + one 12-byte archive info + one 12-byte point), or for a length derived from the file size: the
+// page buffer refuses a read beyond the end of the file, so a larger fixed prefetch makes the smallest accepted
+// layouts impossible to reopen.
+func ruleHeaderFirstRead(w *World, r *Report, rule string) {
+	const key = "whispertool.Whisper.readHeader:first-read"
+	f := fn(w.Lib, "Whisper.readHeader")
+	if f == nil {
+		r.Undecided(rule, key, "-", "readHeader not found")
+		return
+	}
+	meta, _ := constValue(w, "metaSize")
+	ail, _ := constValue(w, "archiveInfoListSize")
+	ps, _ := constValue(w, "pointSize")
+	smallest := meta + ail + ps
+	var first *ssa.Call
+	for _, b := range f.DomPreorder() {
+		for _, in := range b.Instrs {
+			if c, ok := in.(*ssa.Call); ok && first == nil && c.Common().StaticCallee() != nil && c.Common().StaticCallee().Name() == "ReadAt" {
+				first = c
+			}
+		}
+	}
+	if first == nil || len(first.Common().Args) < 2 {
+		r.Undecided(rule, key, w.pos(f.Pos()), "no ReadAt call found")
+		return
+	}
+	bad := ""
+	buf := first.Common().Args[1]
+	if sl, ok := buf.(*ssa.Slice); ok && sl.High != nil {
+		if k, isK := constInt(sl.High); isK {
+			if k > smallest {
+				bad = fmt.Sprintf("reads %d bytes although the smallest valid file has %d", k, smallest)
+			}
+		} else if !strings.Contains(newExprCtx(w).expr(sl.High), "p1") {
+			bad = "reads " + newExprCtx(w).expr(sl.High) + " bytes, a length that is neither a constant within the smallest valid file nor derived from the file size"
+		}
+	} else if mk, ok := stripChangeType(buf).(*ssa.MakeSlice); ok {
+		if k, isK := constInt(mk.Len); !isK || k > smallest {
+			bad = "reads a whole buffer of " + newExprCtx(w).expr(mk.Len) + " bytes"
+		}
+	} else {
+		bad = "reads into " + newExprCtx(w).expr(buf) + " (length not recognised)"
+	}
+	r.Check(bad == "", rule, key, w.instrPos(first), fmt.Sprintf("the first read stays within the smallest valid file (%d bytes)", smallest), "readHeader "+bad+": layouts that Create accepts (one archive of one or two points) can no longer be reopened")
+}
